@@ -69,14 +69,7 @@ func (cr *keyStore) load() error {
 			CausedBy(err)
 	}
 
-	var entry *keystore.Entry
-
-	if len(cr.keyID) != 0 {
-		entry, err = ks.GetKey(cr.keyID)
-	} else {
-		entry, err = ks.Entries()[0], nil
-	}
-
+	entry, err := keystore.SelectKey(ks, cr.keyID)
 	if err != nil {
 		return errorchain.NewWithMessage(heimdall.ErrConfiguration,
 			"failed retrieving key from key store").CausedBy(err)
